@@ -449,6 +449,7 @@ func runOwnSchedule(sc *ownScenario, ch sched.Chooser) *ownRun {
 // engine
 
 func runOwnership(e *ev.Env) {
+	defer recordMaxRSS(e)
 	vt.Require()
 	vt.Start()
 	ownershipCorpus(e)
